@@ -97,6 +97,8 @@ class NonLinear(Contract):
         k = z(L["k"])
         out = {"square": z3.And(z(cor.shape[0]) == z(L["df"].shape[1]), z(cor.shape[1]) == z(L["df"].shape[1]))}
         cnt = lambda i, j: k + z3.If(done(i, j), 1, 0)
+        arrs = [cor] + ([L["mini"], L["maxi"]] if L["minmax"] else [])
+        out["no_entry_is_nan"] = E.forall_range([(0, d), (0, d)], lambda i, j: z3.And(*[_not_nan(m, i, j) for m in arrs]))
         out["sum_between_0_and_number_of_draws"] = E.forall_range(
             [(0, d), (0, d)], lambda i, j: z3.And(cor.get(i, j) >= 0, cor.get(i, j) <= z3.ToReal(cnt(i, j))))
         if L["minmax"]:
@@ -138,6 +140,8 @@ class NonLinear(Contract):
         out["one_row_and_column_per_variable"] = z3.And(*[z3.And(z(m.shape[0]) == d, z(m.shape[1]) == d) for m in mats])
         mean = mats[0]
         out["entries_in_unit_interval"] = E.forall_range([(0, d), (0, d)], lambda i, j: z3.And(mean.get(i, j) >= 0, mean.get(i, j) <= 1))
+        # also for tables with constant columns, whose Pearson correlations (the matrix the accumulators are shaped after) are NaN
+        out["no_entry_is_nan"] = E.forall_range([(0, d), (0, d)], lambda i, j: z3.And(*[_not_nan(m, i, j) for m in mats]))
         if a.minmax:
             mini, maxi = mats[1], mats[2]
             out["min_and_max_in_unit_interval"] = E.forall_range([(0, d), (0, d)], lambda i, j: z3.And(
@@ -149,6 +153,10 @@ class NonLinear(Contract):
     canaries = {"entries_below_one_half": lambda E, a, res, old: E.forall_range(
         [(0, z(a.df.shape[1])), (0, z(a.df.shape[1]))],
         lambda i, j: (res[0] if isinstance(res, tuple) else res).get(i, j) <= z3.RealVal("1/2"))}
+
+
+def _not_nan(m, i, j):
+    return z3.Not(m.isnan(i, j)) if m.cell.nan is not None else z3.BoolVal(True)
 
 
 class _LK:
@@ -164,7 +172,7 @@ class _LK:
 
 
 META = dict(
-    level="proof", assumptions=["A1", "A2", "A6", "A7", "A9"],
+    level="proof", lean_files=["lemmas/Sums.lean"], assumptions=["A1", "A2", "A6", "A7", "A9"],
     trusted=["r2_score is opaque (its value is returned unchanged); numpy.log/exp are element-wise ln/exp",
              "sklearn.preprocessing.scale returns a new array; train_test_split(test_size=0.5) returns two non-empty new arrays for n>=2; "
              "numpy.var >= 0; sqrt maps [0,1] into [0,1]; clone returns a fresh estimator"],
